@@ -106,6 +106,14 @@ CHECKS = {
             "Programs with concurrently scheduled jobs under every schedule within the bound; every JobToken's three "
             "directories exist, are registered in the data manager, and are disjoint across jobs unless fixed.",
             "Local location only (shell-remote locations need real subprocesses, not available on the controlled loop).", "3/C15"),
+    "C16": ("fault_enumeration", "E1", E1 + "; every single fault (job x phase x kind x count x lost data) enumerated",
+            "Real StreamFlowExecutor + RollbackFailureManager on job shapes (scalar/file/list/object pipelines, scattered jobs, "
+            "A->scatter B_i->gather->C, diamond, loop with a job body): EVERY single fault (job x {schedule, transfer, execute} x "
+            "{soft, fail-stop} x count {1,2} x which directories are lost) [thorough: pairs of faults on different jobs] x every "
+            "schedule within the deviation bound; oracle: run() returns, outputs (file contents) equal the failure-free run, all "
+            "steps COMPLETED, no task pending.",
+            "max_retries exceeds the failures of a plan; idle-only sub-space of schedules for most plans, full model for 1-3; "
+            "<= 2 deviations.", "3/C16"),
 }
 
 NOT_YET = "check not built yet in this session (planned, see DESIGN.md section 3); no claim is made"
